@@ -44,6 +44,9 @@ Note(prop, why, extra) ==
         ELSE TRUE
 NoteIf(cond, prop, why, extra) == IF cond THEN Note(prop, why, extra) ELSE TRUE
 
+(* register 4: how often each kind of event / verdict / judgement was exercised (vacuity guard for the orchestrator) *)
+Count(key) == LET c == TLCGet(4) IN TLCSet(4, (key :> (IF key \in DOMAIN c THEN c[key] ELSE 0) + 1) @@ c)
+
 Has(e, f) == f \in DOMAIN e
 
 (***************************************************************************)
@@ -144,6 +147,8 @@ EvWriteTo(e) ==
              NoteIf(rl.kind # "value" \/ (rl.kind = "value" /\ (~rl.minimal \/ rl.val # Len(bytes) - 1 - rl.width)), "C15",
                     "remaining length not written as the minimal form of the number of bytes that follow", [head |-> SubSeq(bytes, 1, IF Len(bytes) < 6 THEN Len(bytes) ELSE 6), len |-> Len(bytes)])
         ELSE TRUE
+     /\ (good /\ t # 0 /\ InC02Domain(t, o) /\ Framed(bytes) => Count("c02-judged"))
+     /\ (~good => Count("write-faulty"))
      /\ IF good /\ t # 0 /\ InC02Domain(t, o) /\ Framed(bytes)
         THEN LET d == StrictDecode(bytes) IN
              IF ~d.ok THEN Note("C02", "frame rejected by the strict reading of MQTT v5.0", [why |-> d.why, at |-> d.at, frame |-> bytes])
@@ -259,8 +264,13 @@ EvPanic(e) ==
 EvBudget(e) ==
   /\ Note("C05", "decoding exceeded the work bound of the frame", [steps |-> e.steps, limit |-> e.limit])
   /\ UNCHANGED <<pool, from, contig, enc, memo, diag, prog>> /\ KeepStream
+AbortProp(op) == IF op = "Diag" THEN "C19"
+                 ELSE IF op \in {"WriteTo", "WriteN"} THEN "C10"
+                 ELSE IF op = "Conc" THEN "C13"
+                 ELSE IF op \in {"Call", "New", "Pub"} THEN "C12"
+                 ELSE "C05"                                      \* ReadPacket, Unmarshal, unknown
 EvAbort(e) ==
-  /\ Note(IF prog.fam = "diag" THEN "C19" ELSE "C05", "operation did not return within the time / memory budget", [why |-> e.why])
+  /\ Note(AbortProp(e.op), "operation did not return within the time / memory budget", [why |-> e.why, op |-> e.op])
   /\ UNCHANGED <<pool, from, contig, enc, memo, diag, prog>> /\ KeepStream
 EvOther(e) == UNCHANGED <<pool, from, contig, enc, memo, diag, prog>> /\ KeepStream
 
@@ -371,11 +381,15 @@ ReadReturn(e) ==                                     \* k = Len(calls) + 1
       src == IF from # 0 /\ from \in DOMAIN pool THEN pool[from] ELSE [t |-> -1]
       rtrip == judge /\ src.t >= 0 /\ InC01Domain(src.t, src.o) /\ from \in DOMAIN enc /\ enc[from].bytes = g
   IN
+  /\ Count("Read") /\ Count("verdict-" \o v.kind)
+  /\ Count(IF Len(e.calls) > 3 THEN "read-fragmented" ELSE "read-contiguous")
+  /\ (faulty => Count("read-faulty")) /\ (rtrip => Count("roundtrip")) /\ (judge /\ g \in DOMAIN memo => Count("memo-compared"))
   /\ NoteIf(e.ok = e.nilpkt, "C04", "ReadPacket returned neither exactly a packet nor exactly an error", [ok |-> e.ok, nilpkt |-> e.nilpkt])
   /\ NoteIf(~MayReturn(res, e.isE, e.isEOF),
             IF faulty THEN "C08"
-            ELSE IF ~e.ok /\ Header(g).hdr THEN "C06"      \* gave up with part of the frame left on the stream
-            ELSE "C07",
+            ELSE IF \A j \in 1..Len(e.calls) : e.calls[j].n = e.calls[j].req
+                 THEN "C06"      \* every request was satisfied in full: the call itself left part of the frame on the stream
+            ELSE "C07",          \* a short read was taken for the whole
             IF e.ok THEN "packet returned although the frame was not obtained completely"
             ELSE "error does not report what happened on the stream",
             [got |-> rp.got, fault |-> rp.fault, ok |-> e.ok, isE |-> e.isE, isEOF |-> e.isEOF, hdr |-> Header(g)])
@@ -442,14 +456,15 @@ Init ==
   /\ pool = EmptyFn /\ enc = EmptyFn /\ memo = EmptyFn /\ diag = EmptyFn
   /\ from = 0 /\ contig = TRUE
   /\ wire = <<>> /\ limit = 0 /\ fate = "eof" /\ with = FALSE /\ pos = 0 /\ rp = Idle
-  /\ TLCSet(1, <<>>) /\ TLCSet(2, EmptyFn) /\ TLCSet(3, 0)
+  /\ TLCSet(1, <<>>) /\ TLCSet(2, EmptyFn) /\ TLCSet(3, 0) /\ TLCSet(4, EmptyFn)
 
 Next ==
   /\ l <= N
   /\ TLCSet(3, l)
   /\ LET e == Trace[l] IN
      IF e.ev = "Read" THEN ReadEvent(e)
-     ELSE /\ Step(e)
+     ELSE /\ Count(e.ev)
+          /\ Step(e)
           /\ l' = l + 1 /\ k' = 0 /\ ph' = "req"
 
 Spec == Init /\ [][Next]_tvars
@@ -457,6 +472,7 @@ Spec == Init /\ [][Next]_tvars
 (* all lines consumed; notes written out for the orchestrator *)
 TraceDone ==
   /\ ndJsonSerialize(NotesFile, <<[summary |-> TRUE, lines |-> N, reached |-> TLCGet(3),
-                                   counts |-> [p \in DOMAIN TLCGet(2) |-> TLCGet(2)[p]] @@ [none |-> 0]]>> \o TLCGet(1))
+                                   counts |-> [p \in DOMAIN TLCGet(2) |-> TLCGet(2)[p]] @@ [none |-> 0],
+                                   cover |-> [p \in DOMAIN TLCGet(4) |-> TLCGet(4)[p]] @@ [none |-> 0]]>> \o TLCGet(1))
   /\ TLCGet(3) = N \/ N = 0
 =============================================================================
